@@ -115,3 +115,7 @@ class UFun:
 
 class Unsupported(Exception):
     """Raised when the code leaves the supported subset: the function becomes 'unbound'."""
+
+
+class TypeMismatch(Unsupported):
+    """A value of the wrong type reaches an operation: the path must be infeasible (obligation)."""
